@@ -1,6 +1,7 @@
 #!/bin/bash
 # tools/scratch.sh <patchfile> <dir> : scratch copy of /repo with the patch applied (caller removes it)
 set -e
+PF="$(realpath "$1")"
 rm -rf "$2"; mkdir -p "$2"
 rsync -a --exclude .git /repo/ "$2/"
-(cd "$2" && patch -p1 -s --no-backup-if-mismatch < "$(realpath "$1")")
+(cd "$2" && patch -p1 -s --no-backup-if-mismatch < "$PF")
